@@ -44,8 +44,8 @@ IsGroundPred(e) == e.f \in {":string:starts_with", ":string:ends_with", ":string
 PredDefined(e) ==
   CASE e.f \in {":string:starts_with", ":string:ends_with", ":string:contains"} -> IsStr(e.a[1]) /\ IsStr(e.a[2])
     [] e.f = ":match_prefix" -> IsName(e.a[2])
-    [] e.f \in {":time:lt", ":time:le", ":time:gt", ":time:ge"} -> e.a[1][1] = "t" /\ e.a[2][1] = "t"
-    [] OTHER -> e.a[1][1] = "d" /\ e.a[2][1] = "d"
+    [] e.f \in {":time:lt", ":time:le", ":time:gt", ":time:ge"} -> e.a[1][1] \in {"t", "tw"} /\ e.a[2][1] = e.a[1][1]
+    [] OTHER -> e.a[1][1] \in {"d", "dw"} /\ e.a[2][1] = e.a[1][1]
 PredHolds(e) ==
   CASE e.f = ":string:starts_with" -> StartsWith(e.a[1][2], e.a[2][2])
     [] e.f = ":string:ends_with" -> EndsWith(e.a[1][2], e.a[2][2])
